@@ -1,4 +1,5 @@
 import NflowsModel.Audit.Tool
 import NflowsModel.Properties.C10
+import NflowsModel.Properties.C10V
 
 #audit_namespace Properties.C10
